@@ -160,7 +160,7 @@ Section GateLines.
     exists l'. split; [exact E|]. split; [exact I'|].
     unfold lr_insert_line in E. destruct (line_ok_facts bs f _ _ _ OK) as (LB & LE & _). rewrite LB, LE in E.
     injection E as <-. cbn [l_lines l_lru] in *.
-    assert (MONO : forall x, stored_at l x -> stored_at (mkLR (ainsert b (l_nid l, ps) (l_lines l)) (ainsert e b (l_foend l)) (l_lru l) (l_on l) (l_nid l + 1) (lc_inserted (lenN (ainsert b (l_nid l, ps) (l_lines l))) (l_cnt l))) x).
+    assert (MONO : forall x, stored_at l x -> stored_at (mkLR (ainsert b (l_nid l, ps) (l_lines l)) (ainsert e b (l_foend l)) (l_lru l) (l_on l) (l_nid l + 1) (lc_inserted (lenN (ainsert b (l_nid l, ps) (l_lines l))) (l_cnt l)) (l_blk l) (l_ext l)) x).
     { intros x X. unfold stored_at in *. cbn. rewrite alookup_ainsert. destruct (x =? b); [discriminate|exact X]. }
     split; [|split; [exact MONO|split; [|reflexivity]]].
     - intros k n s X. cbn in X. destruct (S _ _ _ X) as (b' & B' & ST). exists b'. split; [exact B'|apply MONO; exact ST].
@@ -259,15 +259,22 @@ Section GateLines.
       unfold lr_answer in AN. unfold sl_parts in *. rewrite EN in AN. injection AN as <- <- <-.
       assert (ST2 : stored_at (lr_put (lr_cnt lc_miss_up l1) fo (LF (e + 1) s)) fo) by (unfold stored_at; rewrite L2; cbn in LKB; congruence).
       left. destruct (SHAPE _ _ eq_refl) as [EQ' OK']. exists s. rewrite <- EQ'. split; [reflexivity|]. split; [exact OK'|exact ST2]. }
-    (* miss: search inside the block *)
-    set (l3 := lr_cnt lc_miss_up l1) in *.
-    assert (I3 : lr_inv l3) by (apply lr_inv_cnt; exact I1).
-    assert (S3 : lru_stored l3) by (apply cnt_seq; exact S1).
-    assert (MONO3 : forall x, stored_at l x -> stored_at l3 x) by (unfold stored_at in *; cbn; exact MONO1).
+    (* miss: read the block of the offset (always there: lr_inv), then search inside it *)
+    set (l2 := lr_cnt lc_miss_up l1) in *.
+    assert (I2 : lr_inv l2) by (apply lr_inv_cnt; exact I1).
+    destruct (lr_read bs f l2 (fun _ => false) (block_offset_at_file_offset fo bs)) as [l3 rr] eqn:RD.
+    destruct (lr_read_ok bs f _ _ _ _ _ RD) as (SM & TR).
+    destruct (TR (proj2 I2) (blockoffset_last_ge (lenN f) bs fo Hbs L) ltac:(lia)) as (-> & T3).
+    assert (I3 : lr_inv l3) by (split; [eapply same_maps_inv; [exact SM|exact (proj1 I2)]|exact T3]).
+    destruct SM as (SA & SB & SC & _).
+    assert (S3 : lru_stored l3).
+    { apply (lru_stored_same l2); [exact SA|intros k r0 X; rewrite SC in X; exact X|apply cnt_seq; exact S1]. }
+    assert (MONO3 : forall x, stored_at l x -> stored_at l3 x) by (unfold stored_at in *; rewrite SA; cbn; exact MONO1).
     assert (PS3 : fo <> 0 -> alookup (fo - 1) (l_lines l3) <> None \/ lr_get_linep l3 (fo - 1) <> None).
     { intro NZ. destruct PS as [PS|[PS|PS]]; [contradiction|left|right].
-      - cbn. rewrite L1. exact PS.
-      - unfold lr_get_linep in *. cbn. rewrite L1, E1. exact PS. }
+      - rewrite SA. cbn. rewrite L1. exact PS.
+      - unfold lr_get_linep in *. rewrite SA, SB. cbn. rewrite L1, E1. exact PS. }
+    unfold c_flib_core.
     destruct (fwd_search_ok bs f fo (S (length f)) Hbs L (fuel_ok bs f Hbs ltac:(lia)))
       as (e & after & bme & FW & E & B1 & B2 & _ & MID & CASES & NOAFTER).
     cbv zeta in *.
@@ -372,6 +379,27 @@ Section GateLines.
            as (S5 & M5 & ST5 & s5 & ->);
          split; [exact S5|]; split; [intros x X; apply M5; apply MONO3; exact X|]; left;
          destruct (SHAPE _ _ eq_refl) as [_ OK5]; exists s5; rewrite LE; auto.
+  Qed.
+  (* at the end of the file: Done, nothing changes but counters and the order of the LRU list *)
+  Lemma lb_eof l l' r part p : lr_inv l -> lru_stored l ->
+    c_find_line_in_block bs f l (lenN f) = (l', (r, part), p) ->
+    r = Done /\ part = None /\ lr_inv l' /\ lru_stored l' /\ (forall x, stored_at l x -> stored_at l' x).
+  Proof.
+    intros I S C.
+    destruct (c_find_line_in_block_ok bs f Hbs _ _ _ _ _ _ I C) as [I' R].
+    assert (r = Done /\ part = None /\ l_lines l' = l_lines l /\ l_lru l' = l_lru l) as (-> & -> & LL & LU).
+    { revert C. unfold c_find_line_in_block.
+      destruct (lr_check_lru l (lenN f)) as [l1 [x|]] eqn:CL.
+      - destruct (lr_check_lru_ok bs f _ _ _ _ I CL) as [_ EO]. pose proof (entry_lt bs f Hbs _ _ EO) as ELT. lia.
+      - destruct (N.eqb_spec (lenN f) 0); cbn [orb];
+          [|destruct (N.ltb_spec (lenN f) (lenN f)); cbn [orb]; [|destruct (N.eqb_spec (lenN f) (lenN f)); [|lia]]];
+          intro HH; injection HH as <- <- <- <-; (split; [reflexivity|split; [reflexivity|]]);
+          unfold lr_check_lru in CL; destruct (l_on l);
+            try (destruct (lru_get (lenN f) (l_lru l)) as [[y|] c] eqn:G; [discriminate|];
+                 apply lru_get_None in G as [_ ->]); injection CL as <-; auto. }
+    split; [reflexivity|]. split; [reflexivity|]. split; [exact I'|]. split.
+    - intros k0 n0 s0 X. unfold stored_at. rewrite LL. rewrite LU in X. exact (S _ _ _ X).
+    - unfold stored_at. rewrite LL. auto.
   Qed.
 End GateLines.
 
@@ -501,8 +529,8 @@ Section GateSys.
   Qed.
 
   (* find_line_in_block through the SyslineReader, at a line begin whose predecessor is known *)
-  Lemma sr_lb_seq st fo st' r part : ginv st -> fo < lenN f -> line_beg f fo = fo -> pred_stored (s_lr st) fo ->
-    sr_find_line_in_block bs f st fo = (st', (r, part)) ->
+  Lemma sr_lb_seq st acc fo st' r part : ginv st -> fo < lenN f -> line_beg f fo = fo -> pred_stored (s_lr st) fo ->
+    sr_find_line_in_block bs f st acc fo = (st', (r, part)) ->
     ginv st' /\ frame st st' /\ s_lru st' = s_lru st /\ s_parse st' = s_parse st /\
     (forall x, stored_at (s_lr st) x -> stored_at (s_lr st') x) /\
     ((exists s, r = Found (line_end f fo + 1, s) /\ sline_ok s fo (line_end f fo) /\ stored_at (s_lr st') fo) \/
@@ -513,12 +541,25 @@ Section GateSys.
       end)).
   Proof.
     intros GI L LB PS. unfold sr_find_line_in_block.
-    destruct (c_find_line_in_block bs f (s_lr st) fo) as [[l' [r' part']] p] eqn:C.
+    destruct (c_find_line_in_block bs f (lr_set_ext (sr_held st acc) (s_lr st)) fo) as [[l' [r' part']] p] eqn:C.
     intro H; injection H as <- <- <-.
     pose proof GI as ((I & _) & _ & S).
-    destruct (lb_seq bs f Hbs _ _ _ _ _ _ (si_lr _ _ _ _ I) S L LB PS C) as (I' & S' & MONO & R).
+    destruct (lb_seq bs f Hbs _ _ _ _ _ _ (lr_set_ext_inv bs f _ _ (si_lr _ _ _ _ I)) S L LB PS C) as (I' & S' & MONO & R).
     split; [apply ginv_lr; assumption|]. split; [repeat split|]. split; [reflexivity|]. split; [reflexivity|].
     split; [exact MONO|exact R].
+  Qed.
+
+  Lemma sr_lb_eof st acc st' r part : ginv st -> sr_find_line_in_block bs f st acc (lenN f) = (st', (r, part)) ->
+    r = Done /\ part = None /\ ginv st' /\ frame st st' /\ s_lru st' = s_lru st /\
+    (forall x, stored_at (s_lr st) x -> stored_at (s_lr st') x).
+  Proof.
+    intros GI FL. unfold sr_find_line_in_block in FL.
+    destruct (c_find_line_in_block bs f (lr_set_ext (sr_held st acc) (s_lr st)) (lenN f)) as [[l' [r' part']] p] eqn:C.
+    injection FL as <- <- <-.
+    pose proof GI as ((I & _) & _ & S).
+    destruct (lb_eof bs f Hbs _ _ _ _ _ (lr_set_ext_inv bs f _ _ (si_lr _ _ _ _ I)) S C) as (-> & -> & I' & S' & MONO).
+    split; [reflexivity|]. split; [reflexivity|]. split; [apply ginv_lr; assumption|].
+    split; [repeat split|]. split; [reflexivity|exact MONO].
   Qed.
 
   (* loop A of find_sysline_in_block *)
@@ -536,31 +577,14 @@ Section GateSys.
   Proof.
     induction fuel as [|k IH]; intros st fo1 st' r GI (A1 & A2 & A3); cbn [ib_loop_a].
     { intro H; injection H as <- <-. split; [exact GI|]. split; [apply frame_refl|]. auto. }
-    destruct (sr_find_line_in_block bs f st fo1) as [st1 [r1 part1]] eqn:FL.
+    destruct (sr_find_line_in_block bs f st [] fo1) as [st1 [r1 part1]] eqn:FL.
     destruct (N.eq_dec fo1 (lenN f)) as [EOF|NEOF].
     { (* at the end of the file: Done *)
-      unfold sr_find_line_in_block in FL.
-      destruct (c_find_line_in_block bs f (s_lr st) fo1) as [[l' [r' part']] p] eqn:C.
-      injection FL as <- <- <-.
-      pose proof GI as ((I & _) & _ & S).
-      destruct (c_find_line_in_block_ok bs f Hbs _ _ _ _ _ _ (si_lr _ _ _ _ I) C) as [I' R].
-      assert (r' = Done /\ part' = None /\ l_lines l' = l_lines (s_lr st) /\ l_lru l' = l_lru (s_lr st) \/ False) as [(-> & -> & LL & LU)|[]].
-      { revert C. unfold c_find_line_in_block.
-        destruct (lr_check_lru (s_lr st) fo1) as [l1 [x|]] eqn:CL.
-        - destruct (lr_check_lru_ok bs f _ _ _ _ (si_lr _ _ _ _ I) CL) as [_ EO]. pose proof (entry_lt bs f Hbs _ _ EO) as ELT. lia.
-        - destruct (N.eqb_spec (lenN f) 0); cbn [orb];
-            [|destruct (N.ltb_spec (lenN f) fo1); cbn [orb]; [|destruct (N.eqb_spec fo1 (lenN f)); [|lia]]];
-            intro HH; injection HH as <- <- <- <-; left; (split; [reflexivity|split; [reflexivity|]]);
-            unfold lr_check_lru in CL; destruct (l_on (s_lr st));
-              try (destruct (lru_get fo1 (l_lru (s_lr st))) as [[y|] c] eqn:G; [discriminate|];
-                   apply lru_get_None in G as [_ ->]); injection CL as <-; auto. }
-      intro H; injection H as <- <-.
-      split; [apply ginv_lr; [exact GI|exact I'|]|].
-      { intros k0 n0 s0 X. unfold stored_at. rewrite LL. rewrite LU in X. exact (S _ _ _ X). }
-      split; [repeat split|]. split; [reflexivity|]. split; [unfold stored_at; cbn; rewrite LL; auto|exact Logic.I]. }
+      rewrite EOF in FL. destruct (sr_lb_eof _ _ _ _ _ GI FL) as (-> & -> & GI1 & F1 & U1 & MONO1).
+      intro H; injection H as <- <-. split; [exact GI1|]. split; [exact F1|]. split; [exact U1|]. split; [exact MONO1|exact Logic.I]. }
     assert (L : fo1 < lenN f) by lia.
     assert (LB : line_beg f fo1 = fo1) by (destruct A2; [contradiction|assumption]).
-    destruct (sr_lb_seq _ _ _ _ _ GI L LB (pred_sem_stored _ _ GI (A3 L)) FL) as (GI1 & F1 & U1 & P1 & MONO1 & [(s & -> & OK & ST)|(-> & LONG & PART)]).
+    destruct (sr_lb_seq _ _ _ _ _ _ GI L LB (pred_sem_stored _ _ GI (A3 L)) FL) as (GI1 & F1 & U1 & P1 & MONO1 & [(s & -> & OK & ST)|(-> & LONG & PART)]).
     - destruct (sr_parse dated bs f st1 s) as [st2 o] eqn:PA.
       pose proof GI1 as ((I1 & _) & _).
       destruct (sr_parse_ok dated bs f Hbs _ _ _ _ _ _ I1 OK PA) as (I2 & -> & F2 & U2).
@@ -605,30 +629,6 @@ Section GateSys.
       + intro H; injection H as <- <-. split; [exact GI1|]. split; [exact F1|]. split; [exact U1|]. split; [exact MONO1|exact Logic.I].
   Qed.
 
-  Lemma sr_lb_eof st st' r part : ginv st -> sr_find_line_in_block bs f st (lenN f) = (st', (r, part)) ->
-    r = Done /\ part = None /\ ginv st' /\ frame st st' /\ s_lru st' = s_lru st /\
-    (forall x, stored_at (s_lr st) x -> stored_at (s_lr st') x).
-  Proof.
-    intros GI FL. unfold sr_find_line_in_block in FL.
-    destruct (c_find_line_in_block bs f (s_lr st) (lenN f)) as [[l' [r' part']] p] eqn:C.
-    injection FL as <- <- <-.
-    pose proof GI as ((I & _) & _ & S).
-    destruct (c_find_line_in_block_ok bs f Hbs _ _ _ _ _ _ (si_lr _ _ _ _ I) C) as [I' R].
-    assert (r' = Done /\ part' = None /\ l_lines l' = l_lines (s_lr st) /\ l_lru l' = l_lru (s_lr st)) as (-> & -> & LL & LU).
-    { revert C. unfold c_find_line_in_block.
-      destruct (lr_check_lru (s_lr st) (lenN f)) as [l1 [x|]] eqn:CL.
-      - destruct (lr_check_lru_ok bs f _ _ _ _ (si_lr _ _ _ _ I) CL) as [_ EO]. pose proof (entry_lt bs f Hbs _ _ EO) as ELT. lia.
-      - destruct (N.eqb_spec (lenN f) 0); cbn [orb];
-          [|destruct (N.ltb_spec (lenN f) (lenN f)); cbn [orb]; [|destruct (N.eqb_spec (lenN f) (lenN f)); [|lia]]];
-          intro HH; injection HH as <- <- <- <-; (split; [reflexivity|split; [reflexivity|]]);
-          unfold lr_check_lru in CL; destruct (l_on (s_lr st));
-            try (destruct (lru_get (lenN f) (l_lru (s_lr st))) as [[y|] c] eqn:G; [discriminate|];
-                 apply lru_get_None in G as [_ ->]); injection CL as <-; auto. }
-    split; [reflexivity|]. split; [reflexivity|]. split.
-    - apply ginv_lr; [exact GI|exact I'|]. intros k0 n0 s0 X. unfold stored_at. rewrite LL. rewrite LU in X. exact (S _ _ _ X).
-    - split; [repeat split|]. split; [reflexivity|]. unfold stored_at; cbn; rewrite LL; auto.
-  Qed.
-
   Lemma parse_keeps_lr st s st' o : sr_parse dated bs f st s = (st', o) -> s_lr st' = s_lr st.
   Proof.
     unfold sr_parse. destruct (s_parse_on st); [|intro H; injection H as <- _; reflexivity].
@@ -655,11 +655,11 @@ Section GateSys.
     induction fuel as [|k IH]; intros st fo1 acc b0 st' r GI AT C NE; cbn [ib_loop_b].
     { intro H; injection H as <- <-. split; [exact GI|]. split; [apply frame_refl|]. auto. }
     pose proof AT as (A1 & A2 & A3).
-    destruct (sr_find_line_in_block bs f st fo1) as [st1 [r1 part1]] eqn:FL.
+    destruct (sr_find_line_in_block bs f st acc fo1) as [st1 [r1 part1]] eqn:FL.
     destruct (consec_end bs f Hbs _ _ _ C NE) as (sl & b' & e' & LAST & SLOK & EE & _ & BLT).
     assert (F0 : 0 < lenN f) by (destruct SLOK as [(_ & ? & _) _]; lia).
     destruct (N.eq_dec fo1 (lenN f)) as [EOF|NEOF].
-    { rewrite EOF in FL. destruct (sr_lb_eof _ _ _ _ GI FL) as (-> & -> & GI1 & F1 & U1 & MONO1).
+    { rewrite EOF in FL. destruct (sr_lb_eof _ _ _ _ _ GI FL) as (-> & -> & GI1 & F1 & U1 & MONO1).
       unfold fileoffset_last. destruct (N.eqb_spec (lenN f) 0); [lia|].
       destruct (N.ltb_spec fo1 (lenN f - 1)) as [Q|Q]; [lia|].
       unfold slast in LAST. destruct (rev acc) as [|x xs]; [discriminate|]. inversion LAST; subst x.
@@ -669,7 +669,7 @@ Section GateSys.
       split; [left; exact EOF|]. eapply at_line_mono; eauto. }
     assert (L : fo1 < lenN f) by lia.
     assert (LB : line_beg f fo1 = fo1) by (destruct A2; [contradiction|assumption]).
-    destruct (sr_lb_seq _ _ _ _ _ GI L LB (pred_sem_stored _ _ GI (A3 L)) FL) as (GI1 & F1 & U1 & P1 & MONO1 & [(s & -> & OK & ST)|(-> & LONG & PART)]).
+    destruct (sr_lb_seq _ _ _ _ _ _ GI L LB (pred_sem_stored _ _ GI (A3 L)) FL) as (GI1 & F1 & U1 & P1 & MONO1 & [(s & -> & OK & ST)|(-> & LONG & PART)]).
     - destruct (sr_parse dated bs f st1 s) as [st2 o] eqn:PA.
       pose proof GI1 as ((I1 & _) & _).
       destruct (sr_parse_ok dated bs f Hbs _ _ _ _ _ _ I1 OK PA) as (I2 & -> & F2 & U2).
@@ -890,18 +890,7 @@ Section GateSys.
     destruct (c_find_line_in_block bs f l fo) as [[l' [r part]] p] eqn:C.
     destruct (N.eq_dec fo (lenN f)) as [EOF|NEOF].
     - (* at the end of the file nothing changes but the counters and the order of the LRU list *)
-      destruct (c_find_line_in_block_ok bs f Hbs _ _ _ _ _ _ I C) as [I' R].
-      assert (r = Done /\ l_lines l' = l_lines l /\ l_lru l' = l_lru l) as (-> & LL & LU).
-      { revert C. unfold c_find_line_in_block.
-        destruct (lr_check_lru l fo) as [l1 [x|]] eqn:CL.
-        - destruct (lr_check_lru_ok bs f _ _ _ _ I CL) as [_ EO]. pose proof (entry_lt bs f Hbs _ _ EO) as ELT. lia.
-        - destruct (N.eqb_spec (lenN f) 0); cbn [orb];
-            [|destruct (N.ltb_spec (lenN f) fo); cbn [orb]; [|destruct (N.eqb_spec fo (lenN f)); [|lia]]];
-            intro HH; injection HH as <- <- <- <-; (split; [reflexivity|]);
-            unfold lr_check_lru in CL; destruct (l_on l);
-              try (destruct (lru_get fo (l_lru l)) as [[y|] c] eqn:G; [discriminate|];
-                   apply lru_get_None in G as [_ ->]); injection CL as <-; auto. }
-      split; [exact I'|]. intros k0 n0 s0 X. unfold stored_at. rewrite LL. rewrite LU in X. exact (S _ _ _ X).
+      rewrite EOF in C. destruct (lb_eof bs f Hbs _ _ _ _ _ I S C) as (-> & _ & I' & S' & _). auto.
     - assert (L : fo < lenN f) by lia.
       assert (LB : line_beg f fo = fo) by (destruct A2; [contradiction|assumption]).
       destruct (lb_seq bs f Hbs _ _ _ _ _ _ I S L LB (A3 L) C) as (I' & S' & MONO & [(s & -> & OK & ST)|(-> & _)]).
